@@ -174,7 +174,7 @@ class C13(Check):
             "of epistemic_state (id-pool numbering dropped) over 6 operations until no new state appears; all depth<=3 "
             "sequences are re-run un-merged and must land in the state the merged graph predicts (this validates the "
             "canonical form). E-sched: multiprocessing replaced by a controlled double whose children are real forks; "
-            "ALL delivery schedules (done / late / alive-lost / alive-wrote per worker, and every completion order of the workers that "
+            "ALL delivery schedules (done / done-at-join / late / alive-lost / alive-wrote per worker, and every completion order of the workers that "
             "are done) for k = 1..3 workers. Oracle per "
             "call: one row per submitted query, submission order, own key, own text, answer = answer of that query alone on a "
             "fresh manager (under schedules: or flagged timed out with answer False); no process left un-joined. A fixed set of "
